@@ -97,7 +97,20 @@ impl<'a> Ctx<'a> {
                 if let Some(l) = loc {
                     self.out.count("located_errors");
                     if let Err(why) = loc_in_bounds(&l, &self.files) {
-                        self.out.violation(json!({"kind":"error_location_out_of_bounds","engine":"c14","entry":name,"case":self.id,"loc":format!("{}({}):{}", l.file, l.line, l.col),"why":why,
+                        // listed finding: the end of a list's location is extrapolated from its last element (one column per
+                        // enclosing list) instead of being the position of its closing parenthesis; when the parentheses close on
+                        // later lines the end runs past the end of the line that holds the last element, by at most the nesting
+                        // depth.  Attributed only to exactly that: a column overshoot no larger than the input's nesting depth.
+                        let sig = {
+                            let nums: Vec<usize> = why.split(|c: char| !c.is_ascii_digit()).filter(|x| !x.is_empty()).filter_map(|x| x.parse().ok()).collect();
+                            // "column C beyond line L (extent E) of F"
+                            if why.starts_with("column ") && nums.len() >= 3 && l.until.is_some() && nums[0] > nums[2] && nums[0] - nums[2] <= nesting(&String::from_utf8_lossy(self.input)) + 2 {
+                                Some("location:list-end-extrapolated-from-its-last-element")
+                            } else {
+                                None
+                            }
+                        };
+                        self.out.violation(json!({"kind":"error_location_out_of_bounds","engine":"c14","sig":sig,"entry":name,"case":self.id,"loc":format!("{}({}):{}", l.file, l.line, l.col),"why":why,
                             "input":trunc(&String::from_utf8_lossy(self.input),1500)}));
                     }
                 }
